@@ -61,6 +61,9 @@ type world struct {
 	bdf module.BlockDataFactory
 	// other nodes to close
 	extra []*test.Node
+	// child process that decodes every input first (guard.go); noGuard: this IS the child
+	g       *guard
+	noGuard bool
 }
 
 func newWorld() *world {
@@ -78,6 +81,7 @@ func newWorld() *world {
 }
 
 func (w *world) close() {
+	w.g.kill()
 	for _, n := range append(w.extra, w.nd) {
 		func() {
 			defer func() { recover() }()
